@@ -1086,6 +1086,37 @@ func main() {
 		}
 		fmt.Fprintf(&ft, "/-- statement indices in `invoke`: acquire, release (deferred?), handler call -/\ndef invokeOrder : Int × Int × Bool × Int := (%d, %d, %v, %d)\n\n", acq, rel, relDeferred, call)
 	}
+	// stopLocked: idempotence guard, one Close, channel cleared afterwards (Close once per Start / NewClient)
+	{
+		var rows []string
+		for _, fn := range []string{"server.go", "client.go"} {
+			for _, d := range root.files[fn].Decls {
+				fd, ok := d.(*ast.FuncDecl)
+				if !ok || fd.Name.Name != "stopLocked" || fd.Body == nil || len(fd.Body.List) == 0 {
+					continue
+				}
+				guard := false
+				if is, ok := fd.Body.List[0].(*ast.IfStmt); ok && strings.HasSuffix(src(is.Cond), ".ch == nil") && endsInReturn(is.Body.List) {
+					guard = true
+				}
+				closeIdx, clearIdx, closes := -1, -1, 0
+				for i, st := range fd.Body.List {
+					txt := src(st)
+					if strings.HasSuffix(txt, ".ch.Close()") {
+						closes++
+						if closeIdx < 0 {
+							closeIdx = i
+						}
+					}
+					if strings.HasSuffix(txt, ".ch = nil") {
+						clearIdx = i
+					}
+				}
+				rows = append(rows, fmt.Sprintf("(%s, %v, %d, %v)", leanStr(fn), guard, closes, closeIdx >= 0 && clearIdx > closeIdx))
+			}
+		}
+		fmt.Fprintf(&ft, "/-- per stopLocked: starts with `if x.ch == nil { return }`; number of top-level `x.ch.Close()` statements; `x.ch = nil` follows the Close -/\ndef stopGuards : List (String × Bool × Nat × Bool) := [%s]\n\n", strings.Join(rows, ", "))
+	}
 	// who parses inbound bytes: every caller of the shared envelope parser jmessages.parseJSON
 	{
 		var callers []string
